@@ -673,7 +673,7 @@ func checkTermination(c *Ctx, scope []*ssa.Function) {
 				continue
 			}
 			// shrinking string: a loop-carried string whose next value is a proper suffix slice
-			if shrinkingString(u, s, l) {
+			if shrinkingString(u, s, l, g) {
 				c.OK("C12.R3", key, pos, "variant: the loop-carried string is replaced by a strictly shorter suffix in every iteration")
 				continue
 			}
@@ -764,7 +764,7 @@ func consumingLoop(l *Loop) bool {
 	return false
 }
 
-func shrinkingString(u *U, s *Summary, l *Loop) bool {
+func shrinkingString(u *U, s *Summary, l *Loop, gs ...*Gate) bool {
 	for _, in := range l.Header.Instrs {
 		ph, ok := in.(*ssa.Phi)
 		if !ok {
@@ -792,7 +792,9 @@ func shrinkingString(u *U, s *Summary, l *Loop) bool {
 			L.registerTerms(v.Args[1])
 			L.resolveNeqs()
 			if !L.entails(L.linearize(u.Int(1)), L.linearize(v.Args[1]), 0) {
-				all = false
+				if len(gs) == 0 || !progressByRefutation(u, gs[0], s, s.RC[pr], v.Args[1]) {
+					all = false
+				}
 			}
 		}
 		if all && n > 0 {
@@ -801,6 +803,58 @@ func shrinkingString(u *U, s *Summary, l *Loop) bool {
 		}
 	}
 	return false
+}
+
+// progressByRefutation proves lo >= 1 on the paths cond by refutation: with
+// lo <= 0 and the loop lemmas, the positions that are forced to zero are
+// substituted into cond, and every case of the result must contradict linear
+// arithmetic (a scan that stopped at a byte and a scan that would not have
+// started at the same byte cannot both be on the path).
+func progressByRefutation(u *U, g *Gate, s *Summary, cond Ref, lo *E) bool {
+	if cond == False {
+		return true
+	}
+	L := NewLin(u)
+	L.cond = cond
+	loopFacts(L, g, s, s.Fn)
+	L.assumeCond(cond)
+	L.registerTerms(lo)
+	L.resolveNeqs()
+	L.leE(lo, u.Int(0), 0)
+	zero := newLin()
+	sub := map[string]*E{}
+	seen := map[*E]bool{}
+	var rec func(x *E)
+	rec = func(x *E) {
+		if x == nil || seen[x] {
+			return
+		}
+		seen[x] = true
+		if x.Op == "loopphi" && isIntLike(x) {
+			q := L.linearize(x)
+			if L.entails(q, zero, 0) && L.entails(zero, q, 0) {
+				sub[x.key] = u.Int(0)
+			}
+		}
+		if x.Op == "bool" {
+			for _, a := range u.bdd.Support(x.B) {
+				rec(u.atoms[a])
+			}
+			return
+		}
+		for _, a := range x.Args {
+			rec(a)
+		}
+	}
+	rec(lo)
+	for _, a := range u.bdd.Support(cond) {
+		rec(u.atoms[a])
+	}
+	if len(sub) == 0 {
+		return false
+	}
+	empty, _ := theoryEmpty(u, u.SubstBool(cond, sub), True)
+	return empty
 }
 
 func mergeLoop(u *U, s *Summary, l *Loop) bool {
